@@ -7,7 +7,8 @@ import re
 
 import abbr_gen as g
 import format_util as fu
-from markup_util import run_cases, canon_cfg
+from markup_util import run_cases, canon_cfg, enc_config, decode_res, NotModelled, mentions_lorem
+from common import enc_str
 
 HERE = os.path.dirname(os.path.abspath(__file__))
 CORPUS = os.path.join(os.path.dirname(os.path.dirname(HERE)), 'corpus', 'C12')
@@ -288,10 +289,11 @@ def evaluate(kind, abbr, cfg_a, cfg_b, ra, rb):
 
 
 def run(ctx):
-    ok = ctx.build(['props/C12.vo', 'run/MarkupRun.vo'])
+    ok = ctx.build(['props/C12.vo', 'run/MarkupRun.vo', 'run/DepthRun.vo'])
     if ok:
         ctx.obligations('props/C12.v')
     model = ctx.model('markup') if ok else None
+    dom_model = ctx.model('depth') if ok else None
     ctx.cov['rule'] = (
         'abbreviations from the statement AST generator (elements, groups, repeaters, ids/classes, attributes with empty/'
         'boolean/quoted/expression values, single- and multi-line text, text starting with a tag, self-closing marks, '
@@ -369,10 +371,58 @@ def run(ctx):
                 ctx.property_failure(key, 'C12 %s: expand(%r) under %s%s: %s' % (
                     kind, abbr, canon_cfg(cfg_a), (' vs ' + canon_cfg(cfg_b)) if cfg_b else '', bad),
                     {'component': 'C12', 'kind': kind, 'abbr': abbr, 'cfg_a': cfg_a, 'cfg_b': cfg_b, 'why': bad})
+    theorem_domain_check(ctx, dom_model, groups, impl, index)
     for gr in groups[n_fixed + 3:n_fixed + 7]:
         r = impl[index[(groups.index(gr), 'a')]]
         ctx.sample({'abbr': gr['abbr'], 'config_a': gr['cfgs']['a'], 'config_b': gr['cfgs']['b'],
                     'output_a': r[1][:160] if r[0] == 'ok' else list(r)})
+
+
+def theorem_domain_check(ctx, dom_model, groups, impl, index):
+    """Ties the DOMAINS of C12_indent_is_depth / C12_close_aligned to the implementation: the extracted predicates
+    (formatSkip empty, cfg_depth, depth_dom, align_dom) are evaluated on the model's tree of every depth case; inside
+    the domain the oracle must hold on the implementation's output -- also for inputs of a listed finding class (a
+    finding inside the domain would contradict the theorem)."""
+    if dom_model is None:
+        return
+    todo = []
+    for gi, gr in enumerate(groups):
+        for kind, na, nb in gr['checks']:
+            if kind != 'depth':
+                continue
+            cfg = gr['cfgs'][na]
+            if mentions_lorem(gr['abbr'], cfg):
+                continue
+            try:
+                todo.append((gi, na, [1] + enc_config(cfg) + enc_str(gr['abbr'])))
+            except NotModelled:
+                ctx.cover('C12:domain-not-modelled')
+    outs = dom_model.run([w for _, _, w in todo])
+    n_in = n_al = 0
+    for (gi, na, _), w in zip(todo, outs):
+        gr = groups[gi]
+        abbr, cfg = gr['abbr'], gr['cfgs'][na]
+        d = decode_res(w, lambda r: (r.int(), r.int(), r.int(), r.int()))
+        ra = impl[index[(gi, na)]]
+        if d[0] != 'ok' or ra[0] != 'ok':
+            continue
+        skip, cfgok, ddom, adom = d[1]
+        in_depth = bool(skip and cfgok and ddom)
+        in_align = in_depth and bool(adom)
+        ctx.cover('C12:theorem-domain-depth-%s' % ('in' if in_depth else 'out'))
+        ctx.cover('C12:theorem-domain-aligned-%s' % ('in' if in_align else 'out'))
+        n_in += in_depth
+        n_al += in_align
+        bad = oracle_depth(ra[1], cfg)
+        if not bad:
+            continue
+        is_align = 'stands first on its line' in bad
+        if (in_align if is_align else in_depth):
+            ctx.property_failure('C12:in-theorem-domain|%s|%s' % (abbr, canon_cfg(cfg)),
+                                 'C12 depth: expand(%r) under %s lies in the domain of %s, yet on the implementation: %s' % (
+                                     abbr, canon_cfg(cfg), 'C12_close_aligned' if is_align else 'C12_indent_is_depth', bad),
+                                 {'component': 'C12', 'kind': 'depth', 'abbr': abbr, 'cfg_a': cfg, 'cfg_b': None, 'why': bad})
+    ctx.cov['theorem_domains'] = {'depth_cases': len(todo), 'in_C12_indent_is_depth': n_in, 'in_C12_close_aligned': n_al}
 
 
 def replay(ctx, obj):
